@@ -652,7 +652,9 @@ class BuiltinMixin:
         if items is not None:
             return [(st, st.alloc(HCIter(list(items), 0)))]
         if isinstance(v, VRef) and isinstance(st.deref(v), HDict) and st.deref(v).present is not None:
-            raise Unsupported("iter over symbolic dict")
+            if st.deref(v).items:
+                raise Unsupported("iter over a dict with concrete and symbolic keys")
+            return [(st, st.alloc(HIter(self.as_seq(st, v), z3.IntVal(0))))]
         seq = self.as_seq(st, v)
         if seq is None and items is not None:
             seq = self.list_seq(st, st.alloc(HList(items=items)))
@@ -827,7 +829,13 @@ class BuiltinMixin:
             if isinstance(acc, Raised):
                 out.append((s, acc))
                 continue
-            if len(items) >= 2:
+            ckeys = None
+            if acc and len(acc) == len(items) and all(isinstance(k_, VStr) and z3.is_string_value(z3.simplify(k_.t)) for k_ in acc):
+                from .solve import _unescape
+                import re as _re2
+                # code points beyond z3's character range (chr(0x10FFFF)) are kept as the text \u{...}
+                ckeys = [_re2.sub(r"\\u\{([0-9a-fA-F]{5,6})\}", lambda m_: chr(int(m_.group(1), 16)), _unescape(z3.simplify(k_.t).as_string())) for k_ in acc]
+            if len(items) >= 2 and ckeys is None:
                 cond = z3.Function("sorted_unorderable", SeqU, I, B)(self.list_seq(s, s.alloc(HList(items=list(items)))), z3.IntVal(s.world + (1000003 if acc else 0)))
                 bad = s.fork().assume(cond)
                 if feasible(bad.pc):
@@ -835,6 +843,11 @@ class BuiltinMixin:
                 s = s.assume(z3.Not(cond))
             if len(items) <= 1:
                 out.append((s, s.alloc(HList(items=list(items)))))
+            elif ckeys is not None:
+                # every key is a CONSTANT string: the order is decided (stable sort by code points,
+                # as CPython compares str)
+                order = sorted(range(len(items)), key=lambda j: ckeys[j], reverse=bool(concrete(kwargs.get("reverse", const(False)))[1]))
+                out.append((s, s.alloc(HList(items=[items[j] for j in order]))))
             else:
                 perm = z3.Function("sorted_perm", SeqU, I, SeqU)(self.list_seq(s, s.alloc(HList(items=list(items)))), z3.IntVal(s.world))
                 s.assume(z3.Length(perm) == len(items))
